@@ -41,9 +41,9 @@ type WStep struct {
 	// After: what the application does with the writer after Close (legal but
 	// pointless calls that must fail and write nothing): "" | close | write | both
 	After string `json:"after,omitempty"`
-	On       bool    `json:"on,omitempty"`
-	Level    int     `json:"level,omitempty"`
-	JSON     string  `json:"json,omitempty"`
+	On    bool   `json:"on,omitempty"`
+	Level int    `json:"level,omitempty"`
+	JSON  string `json:"json,omitempty"`
 	// Bad: type | bigctl | fragctl ; Via: message | writer | control | prepared
 	Bad string `json:"bad,omitempty"`
 	Via string `json:"via,omitempty"`
